@@ -446,7 +446,7 @@ func Dump(e *Expr) string {
 				continue
 			}
 
-			for _, cs := range strings.Split(cc, "\n") {
+			for _, cs := range splitLinesOutsideStrings(cc) {
 				sb.WriteString(fmt.Sprintf("\n  %s", cs))
 			}
 		}
@@ -463,6 +463,28 @@ func Dump(e *Expr) string {
 
 	res, _ := helper(rootIdx)
 	return res
+}
+
+// splitLinesOutsideStrings splits s at the line breaks that are not part of a
+// string literal, so that indenting the lines never changes a literal
+func splitLinesOutsideStrings(s string) []string {
+	var (
+		res   []string
+		inStr bool
+		start int
+	)
+	for i, c := range s {
+		switch c {
+		case '"':
+			inStr = !inStr
+		case '\n':
+			if !inStr {
+				res = append(res, s[start:i])
+				start = i + 1
+			}
+		}
+	}
+	return append(res, s[start:])
 }
 
 func dumpLeafNode(node *node) (string, bool) {
